@@ -893,10 +893,14 @@ impl MetadataWorker {
     }
 }
 
-/// `start + interval`, saturating to "now" on overflow (as good as any instant
-/// that far in the future).
+/// `start + interval`, saturating to an instant far in the future on overflow
+/// (e.g. an interval of `Duration::MAX`, meaning "never").
 fn deadline_after(start: Instant, interval: Duration) -> Instant {
-    start.checked_add(interval).unwrap_or_else(Instant::now)
+    // Roughly 30 years: the bound tokio itself uses for "far future".
+    const FAR_FUTURE: Duration = Duration::from_secs(86400 * 365 * 30);
+    start
+        .checked_add(interval)
+        .unwrap_or_else(|| start + FAR_FUTURE)
 }
 
 #[cfg(test)]
